@@ -535,6 +535,35 @@ func (w *world) opBadStream(tk int, ref pdf.Reference) {
 // opOtherFile writes and reads an independent file: it shares only
 // package-level state (the zlib pools) with the other tasks.
 func (w *world) opOtherFile(tk int, seed int) {
+	if seed%2 == 1 {
+		// an independent Reader on a file whose stream has no /Length: the
+		// reader's recovery path (search for endstream, trim one end-of-line
+		// marker) must not share state with the same path in another task
+		img, ref, body := c18doc.NoLengthFile(seed)
+		h := simdisk.NewHandle(img)
+		h.Hook = func(int64, int) { w.s.Yield("ReadAt(other file)") }
+		h.HookAfter = func(int64, int) { w.s.Yield("ReadAt(other file) returned") }
+		r2, err := pdf.NewReader(h, int64(len(img)), nil)
+		if err != nil {
+			w.fail("interference", map[string]string{"op": "otherfile-nolength"}, "independent hand-made file cannot be opened: %v", err)
+			return
+		}
+		var data []byte
+		obj, err := r2.Get(ref, true)
+		if stm, ok := obj.(*pdf.Stream); ok && err == nil {
+			var rc io.ReadCloser
+			if rc, err = pdf.DecodeStream(r2, nil, stm); err == nil {
+				data, err = io.ReadAll(rc)
+				rc.Close()
+			}
+		}
+		w.note(tk, "otherfile(nolength) %d bytes err=%v", len(data), err)
+		w.e.Probe("independent reader on a stream without /Length")
+		if err != nil || !bytes.Equal(data, body) {
+			w.fail("interference", map[string]string{"op": "otherfile-nolength"}, "independent reader in another task, stream without /Length: %d bytes in the file, %d read back (err %v)", len(body), len(data), err)
+		}
+		return
+	}
 	disk := simdisk.NewDisk()
 	pw, err := pdf.NewWriter(disk.Sink(simdisk.Seekable), pdf.V1_7, nil)
 	if err != nil {
@@ -626,6 +655,11 @@ func Run(e *core.Env) {
 	all := append(append([]pdf.Reference(nil), d.Dicts...), d.Chain...)
 	plans := make([][]op, nTasks)
 	hot := all[t.Draw("hot", len(all))] // most operations aim at the same few references
+	// some runs are mostly about independent files in other tasks
+	wOther := 1
+	if t.Bool("otherheavy", 1, 8) {
+		wOther = 12
+	}
 	var desc []string
 	for i := range plans {
 		n := 1 + t.Draw(fmt.Sprintf("t%d.nops", i), 4)
@@ -645,7 +679,7 @@ func Run(e *core.Env) {
 				}
 				return all[t.Draw(l+".ref", len(all))]
 			}
-			switch t.Weighted(l+".kind", 6, 3, 3, 2, 2, 2, 1, 1) {
+			switch t.Weighted(l+".kind", 6, 3, 3, 2, 2, 2, wOther, 1) {
 			case 0:
 				o.kind, o.ref, o.tp = "decode", pickRef(), "A"
 				o.nest = t.Bool(l+".nest", 1, 3)
